@@ -204,7 +204,7 @@ func c01PagerDoc(href string) string {
 // ---- sub-space 5: byte tokens ----------------------------------------------------------------
 
 var c01Bytes = []string{"<div>", "</div>", "<p>", "text words here ", "<a href=\"javascript:x\">", "</a>", "<span>", "<table>", "<td>", "<!--", "<script>", "<title>", "</title>", "<noscript>", "<svg>", "<template>",
-	"<frameset>", "<select>", "<plaintext>", "\x00", "\xff\xfe", "<meta charset=\"utf-16\">", "<", "&", "<figure>", "<img src=x>", "</p>", "<font>", "<body>", "</html>", "<li>", "<math>"}
+	"<frameset>", "<select>", "<plaintext>", "\x00", "\xff\xfe", "<meta charset=\"utf-16\">", "<", "&", "<figure>", "<img src=x>", "</p>", "<font>", "<body>", "</html>", "<li>", "<math>", "soft\u00adhyphen cafe\u0301 words ", "<h1>soft\u00adhyphen title</h1>"}
 var c01BytesCore = []int{0, 2, 3, 4, 5, 6, 8, 9, 10, 13, 24, 25}
 
 // ---- sub-space 6: taints on the rich host document -------------------------------------------
@@ -225,6 +225,12 @@ var c01HostTaints = []struct {
 	{"class-sidebar", func(n *html.Node) { n.Attr = append(n.Attr, html.Attribute{Key: "class", Val: "sidebar"}) }},
 	{"display-block", func(n *html.Node) { n.Attr = append(n.Attr, html.Attribute{Key: "style", Val: "display:block"}) }},
 	{"contenteditable", func(n *html.Node) { n.Attr = append(n.Attr, html.Attribute{Key: "contenteditable", Val: "true"}) }},
+	// class names that match both a "negative" and a "positive" word list of the link scorers
+	{"class-entry-footer", func(n *html.Node) { n.Attr = append(n.Attr, html.Attribute{Key: "class", Val: "entry-footer"}) }},
+	{"id-content-sidebar", func(n *html.Node) { n.Attr = append(n.Attr, html.Attribute{Key: "id", Val: "content-sidebar"}) }},
+	{"class-pagination-comment", func(n *html.Node) {
+		n.Attr = append(n.Attr, html.Attribute{Key: "class", Val: "pagination comment-nav"})
+	}},
 }
 
 // ---- sub-space 7: title tokens ---------------------------------------------------------------
@@ -349,6 +355,7 @@ func c01Enumerate(tier string, emit func(*eng.Case)) {
 		for t := 0; t < nTaint; t++ {
 			emit(&eng.Case{Kind: "host", P: map[string]string{"ops": fmt.Sprintf("%d:%d", e, t), "doc": ""}})
 			emit(&eng.Case{Kind: "host", URL: "http://example.com/a/2", Algo: 1, Flags: 30, P: map[string]string{"ops": fmt.Sprintf("%d:%d", e, t), "doc": ""}})
+			emit(&eng.Case{Kind: "host", URL: "http://example.com/l/2", Algo: 0, P: map[string]string{"ops": fmt.Sprintf("%d:%d", e, t), "doc": ""}})
 			if !thorough && t >= 3 {
 				continue
 			}
@@ -523,7 +530,7 @@ func init() {
 		DesignRef: "§5 C01",
 		Rule: "five sub-spaces, each complete to its bound. (1) all ordered trees of hand-built nodes with <= 3 (quick) / <= 4 (thorough) nodes over 33 labels and of 4 / 5 nodes over 12 core labels, x every node as root attached (inside document>html>body) and detached, plus the document node and a bare document; " +
 			"(2) every tree of <= 2 / <= 3 nodes x every node x 11 field mutations (empty Data, upper-case tag, zero/wrong DataAtom, svg namespace, empty Attr slice, duplicate/empty attribute keys, Error/Doctype/Raw node types); (3) trees of <= 2 nodes x nil options and 16 URLs (IPv6, userinfo, non-ASCII host, mailto, relative, placeholder literal, escaped slash, ...) x log-flag sets x SkipPagination x algorithm; " +
-			"(4) a pager whose hrefs are scheme x host x path x query x fragment pieces with <= 2 pieces off default (quick) / full product (thorough) x 14 page URLs (case-folding hosts, placeholder literals, escapes) x both algorithms; (6) every element of the rich host document of C05 (all rendering paths) x 8 taints (hidden, display:none, children removed, aria-hidden, attributes removed, class=sidebar, display:block, contenteditable), singles and pairs (quick: pairs over the first 3 taints); (7) every <title> of <= 3 (quick) / <= 4 (thorough) tokens over 29 word/separator tokens (ASCII and full-width colon, dashes, pipes, guillemets, slashes, NBSP, punctuation), with and without an equal h1; (5) all ApplyForReader inputs of <= 3 / <= 4 tokens over 32 byte tokens and 4 / 5 over 12 core tokens, with and without URL. " +
+			"(4) a pager whose hrefs are scheme x host x path x query x fragment pieces with <= 2 pieces off default (quick) / full product (thorough) x 14 page URLs (case-folding hosts, placeholder literals, escapes) x both algorithms; (6) every element of the rich host document of C05 (all rendering paths) x 11 taints (hidden, display:none, children removed, aria-hidden, attributes removed, class=sidebar, display:block, contenteditable, class/id values matching both word lists of the link scorers), without URL and with URL under each pagination algorithm, singles and pairs (quick: pairs over the first 3 taints); (7) every <title> of <= 3 (quick) / <= 4 (thorough) tokens over 29 word/separator tokens (ASCII and full-width colon, dashes, pipes, guillemets, slashes, NBSP, punctuation), with and without an equal h1; (5) all ApplyForReader inputs of <= 3 / <= 4 tokens over 32 byte tokens and 4 / 5 over 12 core tokens, with and without URL. " +
 			"Oracle: no panic, step budget (2e7 hook events) not exceeded, worker process survives, and the call returns an error or a result whose Node is a div element. Non-trivial = anything but a plain document root with default options.",
 		Enumerate:        c01Enumerate,
 		Check:            c01Check,
